@@ -2,6 +2,7 @@
 //! each with monomorphic entry points into the real library. Split into parts (separate crates)
 //! only so that cargo compiles them in parallel. See `vgen`.
 pub const THOROUGH: bool = p0::THOROUGH;
+pub use p0::extra;
 
 pub fn entries() -> Vec<bridge::Entry> {
     let mut v = Vec::new();
